@@ -541,12 +541,21 @@ func (env *Env) evalCall(x *ECall) Term {
 		fv.decls.Add(1, "pv_evalphase", "(declare-const pv_evalphase Bool)")
 		fv.usesEvalPhase = true
 		return Term{S: "pv_evalphase", Sort: SBool}
+	case "trusted":
+		a := env.Eval(x.Args[0])
+		fv.decls.Add(1, "pv_trusted", "(declare-fun pv_trusted (pv_Str) Bool)\n(assert (pv_trusted pv_empty))")
+		return Term{S: "(pv_trusted " + a.S + ")", Sort: SBool}
 	case "runes":
 		a := env.Eval(x.Args[0])
 		return fv.strToSlice(a, types.NewSlice(types.Typ[types.Int32]))
+	case "strb":
+		a := env.Eval(x.Args[0])
+		r := fv.sliceToStr(a, false)
+		r.T = types.Typ[types.String]
+		return r
 	case "str":
 		a := env.Eval(x.Args[0])
-		r := fv.sliceToStr(a)
+		r := fv.sliceToStr(a, true)
 		r.T = types.Typ[types.String]
 		return r
 	case "rlen":
@@ -622,6 +631,14 @@ func (env *Env) evalCall(x *ECall) Term {
 	rt, err := fv.eng.resolveType(ps.Result, ps.PkgName)
 	if err != nil {
 		return env.fail("%s: %v", x.Fn, err)
+	}
+	if ps.Ghost {
+		if len(args) != 1 {
+			return env.fail("ghost field %s takes one object", ps.Name)
+		}
+		r := env.heapRead(ghostHeapName(ps), fv.sortOf(rt), args[0])
+		r.T = rt
+		return r
 	}
 	if ps.Heap {
 		return env.heapSpecCall(ps, args, rt)
@@ -742,4 +759,17 @@ func (env *Env) heapSpecCall(ps *PredSpec, args []Term, rt types.Type) Term {
 		}
 	}
 	return r
+}
+
+func ghostHeapName(ps *PredSpec) string { return "GF_" + smtName(ps.PkgName+"_"+ps.Name) }
+
+func (fv *FV) ghostSpec(name, pkg string) *PredSpec {
+	ps := fv.eng.specs.Preds[name]
+	if ps == nil && pkg != "" {
+		ps = fv.eng.specs.Preds[pkg+"."+name]
+	}
+	if ps != nil && ps.Ghost {
+		return ps
+	}
+	return nil
 }
